@@ -20,7 +20,7 @@ TRUSTED = ["pyvc engine semantics of the Python subset (A1)", "z3 4.x/5.x soundn
            "closed facts (operand typing derived by typing/inspect reflection) are read from the imported real package"]
 ASSUMPTIONS = ["A2: the directive bodies receive already-parsed operand tokens; escape expansion in quoted strings happens in the parser (outside)",
                "A3: Deferred/SizedDeferred construct contract (DESIGN section 4): fn evaluated once; value or lazy wrapper of it",
-               "align with modulus 0 raises ZeroDivisionError: excluded here by precondition c >= 1, owned by C08 (finding D6)"]
+               "'.align 0' is an error (value-out-of-bounds) since the fix of finding D6"]
 
 NMAX = 8
 
@@ -229,12 +229,8 @@ def unit_fill(eng, cmd):
     def post(eng, outcome):
         addr = eng.I["addr"]
         kind, val = outcome
-        if cmd == ".align" and kind == "raise" and val.cls == "ZeroDivisionError":
-            # precondition of this contract: modulus >= 1.  modulus 0 is finding D6, owned by C08.
-            eng.prove("align-division-error-only-for-modulus-0", eng.I["v"] == 0)
-            return
         if refused_by_abort(eng, outcome):
-            eng.prove("abort-only-for-a-bad-count", z3.Not(z3.And(eng.I["isint"], eng.I["v"] >= 0, eng.I["v"] < (2 ** 16 if cmd != ".align" else eng.I["v"] + 1))))
+            eng.prove("abort-only-for-a-bad-count", z3.Not(z3.And(eng.I["isint"], eng.I["v"] >= (1 if cmd == ".align" else 0), eng.I["v"] < (2 ** 16 if cmd != ".align" else eng.I["v"] + 1))))
             return
         errs = errors(eng)
         out = zbytes(val)
@@ -248,9 +244,9 @@ def unit_fill(eng, cmd):
             return
         v, isint = eng.I["v"], eng.I["isint"]
         if cmd == ".align":
-            okc = z3.And(isint, v >= 0)
+            okc = z3.And(isint, v >= 1)
             if errs:
-                eng.prove("refused-only-negative-or-nonint-modulus", z3.Not(okc))
+                eng.prove("refused-only-a-modulus-that-is-not-a-positive-integer", z3.Not(okc))
                 eng.prove("refusal-identifiers", all(e[1] in ("type-mismatch", "value-out-of-bounds") for e in errs))
             else:
                 eng.prove("accepted-only-valid-modulus", okc)
